@@ -45,6 +45,26 @@ def _patch_z3():
     _z3["patched"] = True
 
 
+def _patch_crosshair():
+    """Disable CrossHair's contract-based call summaries ("short-circuiting"): functions that carry a
+    PEP316 docstring - notably CrossHair's own replacement of builtin repr() - may otherwise be skipped
+    with a free symbolic return value that is reconciled later.  We always want the real body executed."""
+    import crosshair.core as core
+
+    if getattr(core.ShortCircuitingContext, "_verif_patched", False):
+        return
+
+    def _enter(self):
+        return self
+
+    def _exit(self, *a):
+        return False
+
+    core.ShortCircuitingContext.__enter__ = _enter
+    core.ShortCircuitingContext.__exit__ = _exit
+    core.ShortCircuitingContext._verif_patched = True
+
+
 def run_partition(task):
     """task: module, body, cfg, prefix, assertions, repo, timeout, twin"""
     t0 = time.time()
@@ -54,6 +74,7 @@ def run_partition(task):
     try:
         mod = _fresh_import(task["module"], task["repo"], task["assertions"])
         _patch_z3()
+        _patch_crosshair()
         _z3["n"] = 0
         _z3["t"] = 0.0
         from crosshair.core_and_libs import AnalysisKind, analyze_function, run_checkables
